@@ -126,3 +126,106 @@ func (e *Engine) checkFieldCalledOnlyHere(s *State, fn *ssa.Function, c *FuncCon
 		}
 	}
 }
+
+// Static clause
+//
+//	every_iteration_calls [tag] x: callee
+//
+// In the innermost loop whose body declares the local variable x, every path from the loop head around to the loop
+// head again (one full iteration that goes on to the next element) passes through a call of `callee`: no `continue`
+// (or other shortcut) skips the call. Iterations that leave the function or the loop are not constrained. Decided on
+// the control-flow graph, block by block.
+func (e *Engine) checkEveryIterationCalls(s *State, fn *ssa.Function, c *FuncContract) {
+	for _, spec := range strings.Split(c.Flags["every_iteration_calls"], ";;") {
+		spec = strings.TrimSpace(spec)
+		if spec == "" {
+			continue
+		}
+		tag := ""
+		if strings.HasPrefix(spec, "[") {
+			if k := strings.Index(spec, "]"); k > 0 {
+				tag = spec[1:k]
+				spec = strings.TrimSpace(spec[k+1:])
+			}
+		}
+		k := strings.Index(spec, ":")
+		if k < 0 {
+			e.bail("every_iteration_calls [tag] x: callee")
+		}
+		varName, callee := strings.TrimSpace(spec[:k]), strings.TrimSpace(spec[k+1:])
+		var loop *LoopInfo
+		for _, li := range e.loopsOf(fn).Loops {
+			has := false
+			for b := range li.Blocks {
+				for _, in := range b.Instrs {
+					if al, ok := in.(*ssa.Alloc); ok && al.Comment == varName {
+						has = true
+					}
+				}
+			}
+			if has && (loop == nil || len(li.Blocks) < len(loop.Blocks)) {
+				loop = li
+			}
+		}
+		why := ""
+		if loop == nil {
+			why = "no loop declares a local variable " + varName
+		} else {
+			calls := func(b *ssa.BasicBlock) bool {
+				for _, in := range b.Instrs {
+					if call, ok := in.(*ssa.Call); ok && calleeShortName(call.Common()) == callee {
+						return true
+					}
+				}
+				return false
+			}
+			found := false
+			for b := range loop.Blocks {
+				if calls(b) {
+					found = true
+				}
+			}
+			if !found {
+				why = "the loop over " + varName + " contains no call of " + callee
+			} else {
+				seen := map[*ssa.BasicBlock]bool{}
+				var work []*ssa.BasicBlock
+				for _, t := range loop.Header.Succs {
+					if loop.Blocks[t] && t != loop.Header {
+						work = append(work, t)
+					}
+				}
+				for len(work) > 0 && why == "" {
+					b := work[len(work)-1]
+					work = work[:len(work)-1]
+					if seen[b] || calls(b) {
+						continue
+					}
+					seen[b] = true
+					for _, t := range b.Succs {
+						if t == loop.Header {
+							pos := "?"
+							if len(b.Instrs) > 0 {
+								pos = posString(e.fset, b.Instrs[len(b.Instrs)-1].Pos())
+							}
+							why = "an iteration of the loop over " + varName + " can go on to the next element near " + pos + " without calling " + callee
+							break
+						}
+						if loop.Blocks[t] {
+							work = append(work, t)
+						}
+					}
+				}
+			}
+		}
+		goal, desc := TTrue, "every iteration that continues calls "+callee
+		if why != "" {
+			goal, desc = TFalse, why
+		}
+		name := fmt.Sprintf("%s#frame:%s", e.rootKey, tag)
+		s.addObligation("frame", name, tag, fn.Pos(), goal, "loop over "+varName+": "+desc)
+		if why != "" {
+			e.obligations[len(e.obligations)-1].Result = &SolverResult{Status: "sat", Solver: "static-cfg-analysis", Output: why}
+		}
+	}
+}
